@@ -801,7 +801,7 @@ def mecab_example_classify(line, impl, mobs, extra):
 
 def c19_streams(tier, seed):
     base = with_cli(simple_streams("corpus", 1000, 30000, corpus_classify), {"corpus": corpus_classify},
-                    ("tokenize-output-mecab", "tokenize-status", "train-status"), 12, 400)
+                    ("tokenize-output-mecab", "tokenize-mecab-tokens-differ", "tokenize-status", "train-status"), 12, 400)
     # "... so tokenizer output can be fed to train, split and evaluate": the real split / evaluate / tokenize -O wakati|detail
     return list(base(tier, seed)) + [(["evalsplit", str(seed), "150" if tier == "quick" else "3000"], evalsplit_classify, {"cli": True})]
 
